@@ -1,0 +1,23 @@
+//! Verification hooks (cargo feature `verif`): named yield points placed before shared-memory accesses, reported to an
+//! installable callback -- used by an external deterministic scheduler. Compiles to nothing without the feature.
+use std::sync::RwLock;
+
+type Hook = Box<dyn Fn(&'static str, u64) + Send + Sync>;
+static HOOK: RwLock<Option<Hook>> = RwLock::new(None);
+thread_local! { static PARTICIPATES: std::cell::Cell<bool> = const { std::cell::Cell::new(false) }; }
+
+/// installs (or removes) the callback receiving every hook point reached by participating threads
+pub fn set_hook(h: Option<Hook>) { *HOOK.write().unwrap() = h; }
+/// marks the current thread as (not) reporting its hook points
+pub fn participate(on: bool) { PARTICIPATES.with(|p| p.set(on)); }
+/// tells if the current thread reports its hook points
+pub fn participates() -> bool { PARTICIPATES.with(|p| p.get()) }
+#[inline]
+pub fn point(tag: &'static str, v: u64) {
+    if PARTICIPATES.with(|p| p.get()) {
+        if let Some(h) = HOOK.read().unwrap().as_ref() { h(tag, v) }
+    }
+}
+
+/// re-exports, for direct harnessing, of otherwise private items
+pub use crate::streams_manager::StreamsManagerBase;
